@@ -35,7 +35,8 @@ def calculate_sha384_file_hash(file_path):
 
 def country_int_to_str(country: int) -> str:
     r = LocationMessage.Country.Name(country)
-    return r[1:] if r.startswith('R') else r
+    # only the numeric UN M49 regions are stored with an 'R' prefix (R001), alpha-2 codes such as RO/RU are not
+    return r[1:] if r.startswith('R') and r[1:].isdigit() else r
 
 
 def country_str_to_int(country: str) -> int:
